@@ -1,5 +1,5 @@
 (* Lemmas about Model/Wal.v.  Everything is proved for an arbitrary checksum function. *)
-From Coq Require Import String Ascii Arith NArith List Bool Lia Permutation Sorted.
+From Coq Require Import String Ascii Arith NArith List Bool Lia Permutation Sorted RelationClasses.
 From RV Require Import Lib.Hex Lib.Bytes Gen.Consts Model.Wal.
 Import ListNotations.
 Local Open Scope N_scope.
@@ -876,6 +876,146 @@ Section WalDirProofs.
       apply Hb; auto. right. exists e. auto.
   Qed.
 End WalDirProofs.
+
+(* ---------- the stable sort commutes with filtering ---------- *)
+Section SortFilter.
+  Context {A : Type}.
+  Variable p : N * A -> bool.
+
+  Lemma insert_filter_false : forall (x : N * A) l, p x = false ->
+    filter p (insert_by_seq x l) = filter p l.
+  Proof.
+    induction l as [|y r IH]; intros Hx; cbn [insert_by_seq filter]; [now rewrite Hx|].
+    destruct (fst x <=? fst y); cbn [filter]; [now rewrite Hx|]. now rewrite IH.
+  Qed.
+
+  Lemma insert_head : forall (x : N * A) l, Forall (fun y => fst x <= fst y) l ->
+    insert_by_seq x l = x :: l.
+  Proof.
+    intros x [|y r] H; cbn [insert_by_seq]; auto.
+    inversion H; subst. replace (fst x <=? fst y) with true by (symmetry; now apply N.leb_le). reflexivity.
+  Qed.
+
+  Lemma insert_filter_true : forall (x : N * A) l, p x = true -> StronglySorted key_le l ->
+    filter p (insert_by_seq x l) = insert_by_seq x (filter p l).
+  Proof.
+    induction l as [|y r IH]; intros Hx Hs; cbn [insert_by_seq filter]; [now rewrite Hx|].
+    inversion Hs as [|? ? Hr Hall]; subst.
+    destruct (fst x <=? fst y) eqn:E.
+    - apply N.leb_le in E. cbn [filter]. rewrite Hx.
+      symmetry. apply insert_head.
+      assert (Hall' : Forall (fun z => fst x <= fst z) (y :: r)).
+      { constructor; auto. eapply Forall_impl; [|exact Hall]. unfold key_le. intros; lia. }
+      apply Forall_forall. intros z Hz.
+      apply (proj1 (Forall_forall _ _) Hall').
+      change (In z (filter p (y :: r))) in Hz. apply filter_In in Hz. tauto.
+    - apply N.leb_gt in E. cbn [filter]. destruct (p y) eqn:Ey.
+      + cbn [insert_by_seq]. replace (fst x <=? fst y) with false by (symmetry; apply N.leb_gt; lia).
+        now rewrite IH.
+      + now apply IH.
+  Qed.
+
+  Lemma key_le_trans : Transitive (@key_le A).
+  Proof. intros a b c. unfold key_le. lia. Qed.
+
+  Lemma sort_filter : forall l : list (N * A), sort_by_seq (filter p l) = filter p (sort_by_seq l).
+  Proof.
+    induction l as [|x r IH]; auto.
+    change (sort_by_seq (x :: r)) with (insert_by_seq x (sort_by_seq r)).
+    cbn [filter]. destruct (p x) eqn:Hx.
+    - change (sort_by_seq (x :: filter p r)) with (insert_by_seq x (sort_by_seq (filter p r))).
+      rewrite IH. symmetry. apply insert_filter_true; auto.
+      apply Sorted_StronglySorted; [exact key_le_trans|apply sort_sorted].
+    - rewrite insert_filter_false; auto.
+  Qed.
+End SortFilter.
+
+Lemma filter_filter' : forall A (k1 k2 : A -> bool) l,
+  filter k2 (filter k1 l) = filter (fun x => k1 x && k2 x) l.
+Proof.
+  induction l as [|x r IH]; cbn [filter]; auto.
+  destruct (k1 x); cbn [filter andb]; [destruct (k2 x)|]; now rewrite IH.
+Qed.
+Lemma filter_all_true : forall A (l : list A), filter (fun _ => true) l = l.
+Proof. induction l; cbn; congruence. Qed.
+Lemma filter_none : forall A (p : A -> bool) l, (forall x, In x l -> p x = false) -> filter p l = [].
+Proof.
+  induction l as [|x r IH]; intros H; cbn [filter]; auto.
+  rewrite (H x) by now left. apply IH. intros; apply H; now right.
+Qed.
+Lemma wal_files_filter : forall (keep : bytes * bytes -> bool) st,
+  wal_files (filter keep st) = filter (fun x => keep (snd x)) (wal_files st).
+Proof.
+  induction st as [|[n img] r IH]; cbn [filter wal_files]; auto.
+  destruct (keep (n, img)) eqn:E; cbn [wal_files]; destruct (parse_wal_sequence n); cbn [filter snd]; rewrite ?E, IH; auto.
+Qed.
+
+Section TruncExact.
+  Variable crc : bytes -> N.
+  Notation file_entries := (file_entries crc).
+  Notation recover_all := (recover_all crc).
+
+  Section Loop.
+    Variables (active : option bytes) (T : N) (dfail : bytes -> bool).
+    Notation trunc_loop := (trunc_loop crc active T dfail).
+
+    Lemma trunc_loop_filter : forall names st cnt st' r,
+      NoDup (map fst st) -> trunc_loop names st cnt = (st', r) ->
+      exists keep, st' = filter keep st /\
+        forall f, In f st -> keep f = false -> forall e, In e (file_entries (snd f)) -> e_ts e <= T.
+    Proof.
+      induction names as [|name rest IH]; intros st cnt st' r Hnd H; cbn [Wal.trunc_loop] in H.
+      - inversion H; subst. exists (fun _ => true). split; [now rewrite filter_all_true|discriminate].
+      - destruct (match active with Some a => bytes_eqb a name | None => false end) eqn:Eact.
+        { eapply IH; eauto. }
+        destruct (st_lookup name st) as [img|] eqn:El; [|eapply IH; eauto].
+        destruct (file_entries_cases crc img) as [[H1 H2]|(s & es & H1 & H2)]; rewrite H1 in H.
+        { eapply IH; eauto. }
+        destruct (match es with [] => true | _ => max_ts es <=? T end) eqn:Edel; [|eapply IH; eauto].
+        destruct (dfail name).
+        { inversion H; subst. exists (fun _ => true). split; [now rewrite filter_all_true|discriminate]. }
+        apply IH in H as (keep2 & Hst & Hk); [|now apply st_delete_NoDup].
+        exists (fun f => negb (bytes_eqb (fst f) name) && keep2 f). split.
+        + rewrite Hst. unfold st_delete. apply filter_filter'.
+        + intros [n i] Hf Hkeep e He. cbn [fst snd] in *.
+          destruct (bytes_eqb n name) eqn:En; cbn [negb andb] in Hkeep.
+          * apply bytes_eqb_eq in En. subst n.
+            rewrite (st_lookup_NoDup st name i Hnd Hf) in El. inversion El; subst i.
+            rewrite H2 in He. destruct es as [|e0 es']; [destruct He|].
+            apply N.leb_le in Edel. pose proof (max_ts_ge _ _ He). lia.
+          * apply (Hk (n, i)); auto. apply st_delete_In. split; auto. cbn [fst].
+            intros ->. rewrite bytes_eqb_refl in En. discriminate.
+    Qed.
+  End Loop.
+
+  Lemma filter_concat_contrib : forall (p : entry -> bool) (k : N * (bytes * bytes) -> bool) L,
+    (forall x, In x L -> k x = false -> forall e, In e (contrib crc x) -> p e = false) ->
+    filter p (concat (map (contrib crc) (filter k L))) = filter p (concat (map (contrib crc) L)).
+  Proof.
+    induction L as [|x r IH]; intros H; cbn [filter map concat]; auto.
+    destruct (k x) eqn:E; cbn [map concat].
+    - rewrite !filter_app, IH; auto. intros; eapply H; eauto. now right.
+    - rewrite filter_app, (filter_none _ p (contrib crc x)), IH; auto.
+      + intros; eapply H; eauto. now right.
+      + intros e He. eapply H; eauto. now left.
+  Qed.
+
+  (* exact form: the entries stamped later than T come back in the same order and multiplicity *)
+  Lemma truncate_exact : forall st active T dfail st' r,
+    NoDup (map fst st) -> truncate_before crc st active T dfail = (st', r) ->
+    exists l l', recover_all st = Ok l /\ recover_all st' = Ok l' /\
+      filter (fun e => T <? e_ts e) l' = filter (fun e => T <? e_ts e) l.
+  Proof.
+    intros st active T dfail st' r Hnd H. unfold truncate_before in H.
+    apply trunc_loop_filter in H as (keep & -> & Hk); auto.
+    rewrite !recover_all_eq. do 2 eexists. split; [reflexivity|]. split; [reflexivity|].
+    unfold sorted_files. rewrite wal_files_filter, sort_filter.
+    apply (filter_concat_contrib (fun e => T <? e_ts e) (fun x => keep (snd x))).
+    intros [s [n img]] Hx Hkx e He. cbn [snd] in *.
+    apply (Permutation_in _ (sort_perm _)) in Hx. apply wal_files_In in Hx as [Hin _].
+    apply N.ltb_ge. apply (Hk (n, img) Hin Hkx e). exact He.
+  Qed.
+End TruncExact.
 
 (* ---------- the known finding: length/timestamp fields are outside the checksum ---------- *)
 (* class predicate: the image differs from the written one only inside the length / timestamp
